@@ -1,6 +1,7 @@
 # C02 - ORDER BY, DISTINCT and TOP/LIMIT compose as sort, then dedup, then truncate; bounded streaming queries stop early.
 # Model: Writers.v (chain) + Engine.v; theorems: Props/C02.v (chain_correct, stable sort facts, early stop).
 import itertools
+import importlib
 import lib
 import qgen
 import enginecheck as ec
@@ -26,6 +27,8 @@ def gen_case(ctx, g):
     ncols = r.randint(1, 3)
     nrows = r.randint(0, 7)
     cells = ['1', '2', '3', '12'] if kind == 'int' else ['a', 'b', 'ab', '']
+    if kind == 'int' and r.random() < 0.3:
+        cells = ['-1', '-2', '1', '0', '-1']       # distinct values that a lossy fingerprint confuses (CPython: hash(-1) == hash(-2))
     A = g.rect_table(nrows, ncols, cells)
     B = None
     join = None
@@ -40,7 +43,8 @@ def gen_case(ctx, g):
     for _ in range(r.randint(1, 2)):
         x = r.random()
         if x < 0.5:
-            items.append(('expr', ('fld', 'a', r.randint(0, ncols - 1))))
+            f = ('fld', 'a', r.randint(0, ncols - 1))
+            items.append(('expr', ('int', f) if (kind == 'int' and r.random() < 0.4) else f))
         elif x < 0.65:
             items.append(('star',))
         elif x < 0.8 and B is not None:
@@ -137,7 +141,11 @@ def run(ctx):
                 k += 1
     for c, e, g_ in list(zip(cases, exp, got))[:2]:
         ctx.sample({'query': c['q'], 'A': c['A'], 'B': c['B'], 'model': e, 'implementation': {k2: g_.get(k2) for k2 in ('events', 'pulls', 'error')} if isinstance(g_, dict) else g_})
+    # rbql-js/rbql.js is an anchor of this property too: the JavaScript leg runs language-neutral queries of this shape through rbql-js
+    importlib.import_module('props.c19').js_leg(ctx, THEOREM, 'order', 600 if ctx.tier == 'quick' else 60000)
 
 
 def replay(ctx, case):
+    if case.get('impl') == 'js':
+        return importlib.import_module('props.c19').replay(ctx, case)
     ec.replay(ctx, case, THEOREM, rel=rel)
